@@ -176,10 +176,16 @@ def run(repo):
             if fi.name not in ('solve', 'def_sol'):
                 continue
             for n in walk_no_nested(fi.node):
-                if isinstance(n, ast.Assign) and any(isinstance(t, ast.Name) and t.id == 'y' for t in n.targets) \
-                        and isinstance(n.value, ast.Dict):
+                # the dual dictionary: a dict display (or dict(pi=..)) carrying the key 'pi', wherever it is written
+                dkeys = None
+                if isinstance(n, ast.Dict) and any(isinstance(k, ast.Constant) and k.value == 'pi' for k in n.keys):
+                    dkeys = sorted(k.value for k in n.keys if isinstance(k, ast.Constant))
+                elif isinstance(n, ast.Call) and isinstance(n.func, ast.Name) and n.func.id == 'dict' and \
+                        any(k.arg == 'pi' for k in n.keywords):
+                    dkeys = sorted(k.arg for k in n.keywords if k.arg)
+                if dkeys is not None:
                     nd += 1
-                    keys = sorted(k.value for k in n.value.keys if isinstance(k, ast.Constant))
+                    keys = dkeys
                     ok = keys == ['lpi', 'pi', 'upi']
                     res.functions.add(fi.fq)
                     res.inst({'interface': fi.fq, 'dual_keys': keys}, ok)
@@ -201,8 +207,8 @@ def run(repo):
                      and isinstance(n.targets[0], ast.Name) and isinstance(n.value, ast.Subscript)
                      and ntext(n.value.value).endswith('linear') and
                      any(k in ntext(n.value.slice) for k in ('eq', 'sense'))]
-            has_y = any(isinstance(n, ast.Assign) and any(isinstance(t, ast.Name) and t.id == 'y' for t in n.targets)
-                        and isinstance(n.value, ast.Dict) for n in walk_no_nested(fi.node))
+            has_y = any(isinstance(n, ast.Dict) and any(isinstance(k, ast.Constant) and k.value == 'pi' for k in n.keys)
+                        for n in walk_no_nested(fi.node))
             if has_y and len(split) >= 2:
                 masks = {ntext(n.targets[0].slice) for n in fills}
                 ok = len(fills) >= 2 and any('ineq' in m or m.startswith('~') for m in masks) and \
